@@ -306,6 +306,7 @@ def part_literals(ctx, pairs, cfgs, per_type_cfgs):
 
 KEY_STORAGE_WIDEN = "venom-storage-widening-declared-type"
 KEY_TUPLE_WIDEN = "venom-tuple-return-widening"
+KEY_IFEXP = "ifexp-narrow-branches-wider-context"
 
 
 def part_widening(ctx, cfgs):
@@ -334,7 +335,8 @@ def part_widening(ctx, cfgs):
     items = []
     for idx, ((t, narrow, wide, v, *dcl), o) in enumerate(zip(scen, outs)):
         e1, e2 = X.unpack(o)
-        for kind in ("storage", "internal", "internal_tuple", "memory"):
+        kinds = ("storage", "internal", "internal_tuple", "memory") + (("ternary",) if t[0] in ("darr", "bytes", "string") else ())
+        for kind in kinds:
             items.append((idx, kind, (dcl[0] if dcl else "") + X.widen_source(kind, narrow, wide), e1,
                           e2 if kind == "internal_tuple" else e1))
     jobs = [(cfg, items) for cfg in cfgs]
@@ -355,6 +357,8 @@ def part_widening(ctx, cfgs):
                 key = KEY_STORAGE_WIDEN
             elif cfg.venom and m["kind"] == "internal_tuple" and m["fn"] == "f":
                 key = KEY_TUPLE_WIDEN
+            elif m["kind"] == "ternary":
+                key = KEY_IFEXP      # both pipelines: venom emits wrong bytes, legacy reverts on the valid input
             obs = bytes.fromhex(m["observed"]) if m["observed"] is not None else None
             exp = bytes.fromhex(m["expected"])
             detail = {"source": m["source"], "config": cfg.name, "exit": "ret_cd", "function": m["fn"], "scenario": m["kind"],
